@@ -13,6 +13,12 @@ extern InterpreterEnv* env;
 extern Instance instance;
 extern int count;
 extern char** script_lines;
+/**
+ * The lines a script is listed with, from `from` on: one per operation (the pushed bytes as hex, or the opcode name) and - when
+ * the rest of the script cannot be decoded, e.g. a push that reaches beyond its end - one more for that rest: it is what the
+ * interpreter reads next (and fails on), so it is part of what is going to be executed.
+ */
+std::vector<std::string> script_listing(const CScript& script, CScript::const_iterator from);
 extern int p2sh_lines_start; ///< index of the first line of the P2SH section of script_lines (after its header), -1 if there is none
 void relist_p2sh();          ///< brings the P2SH section up to date with the redeem script that is going to be run
 
